@@ -110,6 +110,9 @@ def prove(hyps, goal, label="", timeout_ms=20000, nonlinear=None) -> Verdict:
     if z3.is_true(g):
         STATS["unsat"] += 1
         return Verdict("holds", None, 0.0, label, goal)
+    if ring_identity(goal):
+        STATS["unsat"] += 1
+        return Verdict("holds", None, time.time() - t0, label, goal)
     r, m = check_sat(list(hyps) + [z3.Not(goal)], timeout_ms, nonlinear)
     dt = time.time() - t0
     if r == "unsat":
@@ -120,6 +123,23 @@ def prove(hyps, goal, label="", timeout_ms=20000, nonlinear=None) -> Verdict:
         return Verdict("violated", m, dt, label, goal)
     STATS["unknown"] += 1
     return Verdict("inconclusive", None, dt, label, goal)
+
+
+def ring_identity(goal) -> bool:
+    """a (conjunction of) polynomial equalities that z3's arithmetic normaliser (sum-of-monomials) reduces to 0 = 0:
+    a ring identity, valid for every value without any hypothesis"""
+    try:
+        if z3.is_and(goal):
+            return all(ring_identity(c) for c in goal.children())
+        if z3.is_eq(goal):
+            l, r = goal.children()
+            if not (z3.is_arith(l) and z3.is_arith(r)):
+                return False
+            d = z3.simplify(l - r, som=True, arith_lhs=True)
+            return (z3.is_rational_value(d) or z3.is_int_value(d)) and d.as_fraction() == 0
+    except z3.Z3Exception:
+        return False
+    return False
 
 
 def reachable(hyps, timeout_ms=20000) -> str:
